@@ -674,6 +674,11 @@ def _interp_internal_from_weight(arr, axis, left, right, lhs_idx, rhs_idx, frac,
     vright = arr[rhs_idx]
     with np.errstate(invalid='ignore'):
         newval = vleft + _frac*(vright - vleft)
+        # next to an infinite value (inf - inf): from the right node, or the common value, like numpy.interp
+        isnan = np.isnan(newval) if newval.dtype.kind == 'f' else False
+        if np.any(isnan):
+            newval = np.where(isnan, vright + (_frac - 1)*(vright - vleft), newval)
+            newval = np.where(np.isnan(newval) & (vleft == vright), vleft, newval)
     # exact at the nodes, also next to (or on) a non-finite value
     newval = np.where(_frac == 0, vleft, newval)
 
